@@ -107,6 +107,9 @@ func (m c02) run(c *Ctx, d *DocSpec) {
 		c.Violate("panic@"+pi.Frame+"/"+panicClass(pi.Val)+"/"+stage, "%s; %s", pi, desc())
 		return
 	}
+	if err == nil && out != nil && !keptPayloadCheck(c, "MarshalDocument", out) {
+		return
+	}
 	if err != nil {
 		c.Violate("roundtrip-error/"+stage+"/"+d.Kind, "%v; bytes %s; %s", err, clip(string(out), 800), desc())
 		return
